@@ -30,6 +30,10 @@ def build(tier):
         obs.append(C20.ob(name, C20.SCRIPTS[name], 2, 6 if quick else 10, timeout=t))
     obs[-1].name = obs[-1].name.replace("C20.a", "C12.b"); obs[-2].name = obs[-2].name.replace("C20.a", "C12.b")
     # default prefix = the input directory's own name, also when another directory was documented before with the same settings object
+    # titles and module names through the real document_single_file in directory mode: '.cmake' is dropped at the END only (a prefix, a
+    # directory or a base name may contain it), separator '.' and '::', extensions kept or dropped
+    obs.append(trees.tree_ob('C12.a', 'S3', 'tree', dict(excl_root=False, out_i=0, recursive=True, auto_ex=False, has_prefix=True), fixexcl=True, fixrev=True,
+                             prefixes=("my.cmake_p", "p.cmake"), timeout=400 if quick else 2400, note=" (prefixes containing '.cmake')"))
     obs.append(trees.tree_ob('C12.a', 'S2q' if quick else 'S2', 'hist', dict(ext_t=False, ext_m=False, sep2=False, excl_root=False, out_i=0, recursive=True, auto_ex=False), fixexcl=True, fixrev=True, timeout=t))
     # C12.d '#[[[ @module ...' is lexed as Module_docstring (wins the tie over Docstring), so the parser cannot attach it to a command
     obs.append(e2obs.ob_validate(D, tier))
